@@ -82,7 +82,7 @@ def main() -> int:
     # custom template directory: override one small template
     tdir = scratch() / "custom_templates"
     tdir.mkdir(parents=True, exist_ok=True)
-    (tdir / "endpoint_init.py.jinja").write_text('""" CUSTOM ENDPOINT INIT for {{ endpoint_collection.tag }} """\n')
+    (tdir / "endpoint_init.py.jinja").write_text('""" CUSTOM ENDPOINT INIT for {{ endpoint_collection.tag }}: M\u00e9thodes f\u00fcr d\u00e9j\u00e0-vu \u00a9 """\n', encoding="utf-8")
     jobs, info = [], {}
     for bi, (label, d, feats) in enumerate(basedocs):
         comps = d["components"]["schemas"]
@@ -137,6 +137,10 @@ def main() -> int:
             add("meta", meta, meta=meta)
         add("file_encoding", "utf-16", meta="none", file_encoding="utf-16")
         add("custom_template_path", "endpoint_init", meta="none", custom_template_path=str(tdir))
+        if bi % 3 == 0:
+            # template files are UTF-8 whatever encoding the output is written in
+            add("custom_template+file_encoding", "cp1252", meta="none", custom_template_path=str(tdir), file_encoding="cp1252")
+            add("custom_template+file_encoding", "utf-16", meta="none", custom_template_path=str(tdir), file_encoding="utf-16")
         add("post_hooks", "true", meta="none", cfg={"post_hooks": ["true"]})
         add("post_hooks", "marker", meta="poetry", cfg={"post_hooks": ["touch HOOK_RAN_ZQ"]})
         add("post_hooks", "failing", meta="none", cfg={"post_hooks": ["false"]})
@@ -188,15 +192,23 @@ def main() -> int:
         phase2.append(j)
     res2 = dict(zip([j["id"] for j in phase2], run.map(phase2, timeout=300)))
     ct_ref = {}
+    custom_ref = {}
     for j in phase2:
         bi, option, variant = info[j["id"]]
         if option == "content_type_overrides" and variant == "reference":
             ct_ref[bi] = res2[j["id"]]
+        if option == "custom_template_path":
+            custom_ref[bi] = res2[j["id"]]
     for j in phase2:
         bi, option, variant = info[j["id"]]
         label, d, feats = basedocs[bi]
         res = res2[j["id"]]
-        if res.get("_error") or res.get("exc"):
+        if res.get("_error"):
+            continue
+        if res.get("exc"):
+            bres0 = base.get((bi, "none"), (None, {}))[1]
+            if not bres0.get("exc") and not bres0.get("_error") and option != "post_hooks":
+                vd.violation(f"{option}:generator_crashed", f"{label}: the generator crashed under {option}={variant} ({res['exc'].get('type')}: {res['exc'].get('msg', '')[:120]}) but not without it", {"doc": j["doc"], "option": option, "variant": variant, "cfg": j.get("cfg"), "exc": res["exc"]})
             continue
         bj, bres = base[(bi, "multitag" if variant == "multitag_collision" else ("poetry" if (option in ("names",) or (option == "post_hooks" and variant == "marker")) else "none"))]
         if bres.get("_error") or bres.get("exc") or not bres.get("accepted"):
@@ -335,6 +347,28 @@ def main() -> int:
                 else:
                     dec[k] = v
             differ(bt, dec, "decoded_text")
+        elif option == "custom_template+file_encoding":
+            ref = custom_ref.get(bi)
+            if ref and not ref.get("exc") and ref.get("tree"):
+                import base64
+                dec = {}
+                for k, v in vt.items():
+                    if isinstance(v, dict) and "$b64" in v:
+                        try:
+                            dec[k] = base64.b64decode(v["$b64"]).decode(variant)
+                        except UnicodeDecodeError:
+                            dec[k] = "<undecodable>"
+                    else:
+                        # the tree reader hands over UTF-8-decodable files as text: go back to the bytes and read them as the encoding asked for
+                        try:
+                            dec[k] = v.encode("utf-8").decode(variant) if isinstance(v, str) else v
+                        except UnicodeError:
+                            dec[k] = "<undecodable>"
+                ev.count("custom_template_encoding_pairs")
+                if not vt:
+                    vd.violation(f"custom_template+file_encoding:nothing_generated:{variant}", f"{label}: nothing generated with a custom template directory and --file-encoding {variant}: {[x['header'] for x in res.get('diags') or []][:2] or res.get('exc')}", w)
+                else:
+                    differ(ref["tree"], dec, f"decoded_text:{variant}")
         elif option == "custom_template_path":
             differ(bt, vt, "other_files", allow=lambda rel: re.fullmatch(r"api/[^/]+/__init__\.py", rel) is not None)
             if not any("CUSTOM ENDPOINT INIT" in (v if isinstance(v, str) else "") for k, v in vt.items() if re.fullmatch(r"api/[^/]+/__init__\.py", k)) and any(k.startswith("api/") and k.count("/") == 2 for k in vt):
